@@ -161,6 +161,42 @@ func startNode(dir string, atGenesis bool) *world {
 		wd.uxSpent = append(wd.uxSpent, in.Hash().Hex())
 		lastSpent = in
 	}
+	if nblocks > 0 {
+		// a transaction that was pooled, lost its input to a conflicting block and was then dropped from the pool as invalid:
+		// whatever the pool predicted for it (outputs for an address of the wallet) must be gone with it
+		uxs, _ := v.GetAllUnspentOutputs()
+		head, _ := v.GetHeadBlock()
+		var small coin.UxOut
+		for _, ux := range uxs {
+			if ux.Body.Address == es[1].SkycoinAddress() {
+				small = ux
+			}
+		}
+		if small.Body.Coins > 0 {
+			mk := func(dst cipher.Address) coin.Transaction {
+				h, _ := small.CoinHours(head.Head.Time)
+				var txn coin.Transaction
+				_ = txn.PushInput(small.Hash())
+				txn.Out = append(txn.Out, coin.TransactionOutput{Address: dst, Coins: small.Body.Coins, Hours: h / 2})
+				txn.SignInputs([]cipher.SecKey{es[1].Secret})
+				_ = txn.UpdateHeader()
+				return txn
+			}
+			lost := mk(es[2].SkycoinAddress())
+			if _, _, err := v.InjectForeignTransaction(lost); err != nil {
+				log.Fatal("inject the transaction that will lose: ", err)
+			}
+			now += 3600 * 30
+			b, err := v.CreateBlockFromTxns(coin.Transactions{mk(es[0].SkycoinAddress())}, now)
+			must(err)
+			must(v.ExecuteSignedBlock(coin.SignedBlock{Block: b, Sig: cipher.MustSignHash(b.HashHeader(), sec)}))
+			nblocks++
+			if _, err := v.RemoveInvalidUnconfirmed(); err != nil {
+				log.Fatal("remove invalid: ", err)
+			}
+			wd.txids = append(wd.txids, lost.Hash().Hex())
+		}
+	}
 	// a pending transaction, and encoded transactions of several kinds
 	uxs, _ := v.GetAllUnspentOutputs()
 	head, _ := v.GetHeadBlock()
